@@ -1245,11 +1245,22 @@ func (e *Engine) handleClosureArg(lit *ast.FuncLit, fv VFunc, st *State, where s
 			}
 			extra["ret"] = e.coerce(o.ret[0], lsig.Results().At(0).Type())
 		}
+		for _, cl := range e.litClauses(lit, "use") {
+			env := withCalls(s2, kc, extra)
+			env.old = preStep
+			e.useLemma(cl.Expr, env, s2, cl.Where)
+		}
 		for j, cl := range invs {
 			env := withCalls(s2, mkArith("+", kc, mkInt(1)), extra)
 			env.old = preStep
 			t := term(e.evalSpec(cl.Expr, env))
 			e.assert(s2, t, fmt.Sprintf("lit#%d/preserve#%d", ord, j), cl.Where, cl.Tags)
+			s2.assume(t) // proved just above: later obligations of this step may rely on it
+		}
+		for _, cl := range e.litClauses(lit, "thenuse") {
+			env := withCalls(s2, kc, extra)
+			env.old = preStep
+			e.useLemma(cl.Expr, env, s2, cl.Where)
 		}
 		for j, cl := range yields {
 			if !hasRet {
